@@ -60,6 +60,13 @@ def special_inputs():
     out.append(("Display", 'enum Dv<A, B, C> { #[display("{_0}")] P(A), #[display("{_0:?}")] Q(B), #[display("{x:x} {y:o}")] R { x: C, y: A } }'))
     out.append(("AsRef", "struct Ar { #[as_ref(str, [u8])] a: String, #[as_ref] b: Vec<u8>, #[as_ref(forward)] c: Box<i32> }"))
     out.append(("Into", "#[into(owned, ref(i64), ref_mut)] #[into(i128)] struct In(i32);"))
+    # several attributes, the later ones listing several types each (merged lists)
+    out.append(("Into", "#[into(i16)] #[into(i32, i64, i128)] #[into(ref(i8, i16), ref_mut(i8, i16, i32))] #[into(ref(i32, i64, i128))] struct In2(i8);"))
+    out.append(("Into", "struct In3 { #[into(i16)] #[into(i32, i64, i128, u8, u16)] a: i8, b: u8 }"))
+    out.append(("From", "enum Fb { #[from(i8)] #[from(i16, i32, u8, u16)] A(i64), #[from(bool)] #[from(char, f32)] B(String) }"))
+    out.append(("From", "#[from(i8)] #[from(i16, i32, u8, u16)] struct Fs(i64);"))
+    out.append(("AsRef", "struct Ar2 { #[as_ref(str)] #[as_ref([u8], String, std::ffi::OsStr, std::path::Path)] a: String }"))
+    out.append(("AsMut", "struct Am2(#[as_mut(str)] #[as_mut(String, [u8], Vec<u8>)] String);".replace(", [u8], Vec<u8>", "")))
     out.append(("From", "enum Fa { #[from(i8, i16)] A(i32), #[from(u8, u16)] B(u32), #[from] C(bool), D(char) }"))
     out.append(("From", "enum Fw<A, B> { P(Box<A>), Q(Box<B>), R(Box<A>, Box<B>) }"))
     out.append(("TryInto", "enum Tw { P(Box<i8>), Q(Box<u8>), R(Box<i8>, Box<u8>) }"))
@@ -220,7 +227,7 @@ def rustc_level(chk, tier):
 
 FEATURE_OF = {"Mul": "mul", "Div": "mul", "Shl": "mul", "MulAssign": "mul_assign", "RemAssign": "mul_assign", "ShrAssign": "mul_assign",
               "TryInto": "try_into", "Error": "error", "FromStr": "from_str", "From": "from", "Debug": "debug", "Display": "display",
-              "AsRef": "as_ref", "Into": "into"}
+              "AsRef": "as_ref", "AsMut": "as_ref", "Into": "into"}
 
 
 def per_feature_level(chk, tier):
